@@ -58,6 +58,12 @@ def protocol_battery():
                       default_answer=[0], note="values wider than their signal: the driver gets what the row reports"))
     b.append(Scenario("CLK A Y\nC 17 X\nC 33 1\n", [("in", "CLK", 1, 0), ("in", "A", 4, 0), ("out", "Y", 8)], default_answer=[1],
                       note="wide values on clocked rows"))
+    # fourth round: blocks that produce no row in the middle of a program - the end is reported once, after the last row
+    for mid, what in (("loop(i,0)\n1 1 X\nend loop\n", "zero-trip loop"), ("while(0)\n1 1 X\nend while\n", "zero-trip while"),
+                      ("repeat(0) 1 1 X\n", "zero-trip repeat"), ("loop(i,2)\nloop(j,0)\n1 1 X\nend loop\nend loop\n", "nested zero-trip loop"),
+                      ("let k = 0;\nloop(i,k-2)\n1 1 X\nend loop\n", "negative bound")):
+        b.append(Scenario("A B Y\n0 1 X\n%s1 2 X\n0 3 X\n" % mid, S, default_answer=[0, 0],
+                          expect={"call_kinds": ["read"] * 4, "nrows": 3}, note="%s between rows: the rows after it are still delivered before the end" % what))
     return b
 
 
@@ -106,6 +112,8 @@ def protocol_judge_one(o, sc):
                 ncalls += 1
         elif it[0] == "end":
             pass
+    if "nrows" in sc.expect and o.items and o.items[-1][0] == "end" and len(o.rows) != sc.expect["nrows"]:
+        return "%d rows were yielded before the end, expected %d (%s)" % (len(o.rows), sc.expect["nrows"], sc.note)
     if "call_kinds" in sc.expect and [c[1] for c in o.calls] != sc.expect["call_kinds"]:
         return "driver calls are %s, expected %s (%s)" % ([c[1] for c in o.calls], sc.expect["call_kinds"], sc.note)
     if o.items and o.items[-1][0] == "end":
@@ -576,6 +584,13 @@ def control_battery():
                 "repeat(1) still opens the scope of its counter", default_answer=[0]))
     b.append(sc("A B Y\nlet acc = 10;\nloop(i,4)\nlet acc = acc + i + 1;\n(i) (acc) X\nend loop\n10 99 X\n",
                 [(0, 11), (1, 13), (2, 16), (3, 20), (10, 99)], "a let in a loop body accumulates across iterations", default_answer=[0]))
+    # statements executed before the first row read the device (the answer to the constructor's call)
+    b.append(sc("A B Y\nloop(i, Y)\n(i) 4 X\nend loop\n9 9 X\n", [(0, 4), (1, 4), (9, 9)],
+                "a loop bound evaluated before the first row reads the construction answer", answers={0: [2]}, default_answer=[7]))
+    b.append(sc("A B Y\nlet v = Y + 1;\nwhile(v < 5)\n(v) 1 X\nlet v = v + 1;\nend while\n", [(3, 1), (4, 1)],
+                "let and while before the first row read the construction answer", answers={0: [2]}, default_answer=[9]))
+    b.append(sc("A B Y\nrepeat(Y) (n) 6 X\n", [(0, 6), (1, 6), (2, 6)],
+                "repeat bound read from the device before the first row", answers={0: [3]}, default_answer=[0]))
     n64 = " ".join("I%d" % i for i in range(64))
     s64_ = [("in", "I%d" % i, 1, 0) for i in range(64)]
     b.append(Scenario("%s\nbits(64, (0-1))\nbits(64, (1<<63))\nbits(64, (~5))\n" % n64, s64_,
@@ -608,6 +623,17 @@ def bits_scenarios(k, value=None):
         want = [str((v >> (k - 1 - i)) & 1) for i in range(k)]
         out.append(Scenario("%s\nbits(%d, %s)\n" % (names, k, lit(v)), sigs, expect={"row_inputs": [want]},
                             note="bits(%d, %d)" % (k, v)))
+        # the same entries bound to signals wider than one bit (a one-bit signal would mask a wrong entry such as -1
+        # back to 1) and to expected columns of 64-bit outputs (not masked at all)
+        wide = [("in", "I%d" % i, 8 if i % 2 else 64, 0) for i in range(k)]
+        out.append(Scenario("%s\nbits(%d, %s)\n" % (names, k, lit(v)), wide, expect={"row_inputs": [want]},
+                            note="bits(%d, %d) into 8- and 64-bit inputs" % (k, v)))
+        kk = min(k, 8)
+        onames = " ".join("O%d" % i for i in range(kk))
+        osigs = [("in", "A", 1, 0)] + [("out", "O%d" % i, 64) for i in range(kk)]
+        owant = [str((v >> (kk - 1 - i)) & 1) for i in range(kk)]
+        out.append(Scenario("A %s\n0 bits(%d, %s)\n" % (onames, kk, lit(v)), osigs, default_answer=[0] * kk,
+                            expect={"row_expected": [owant]}, note="bits(%d, %d) as expected values of 64-bit outputs" % (kk, v)))
     return out
 
 
